@@ -192,6 +192,7 @@ type VCtx struct {
 type qtrig struct {
 	family string                 // memory family whose reads trigger instantiation
 	solve  func(addr *Term) *Term // value of the bound variable for an address read
+	base   *Term                  // base pointer of the array in the pattern (nil: any address)
 }
 
 // QHyp: an assumed universal fact over one or two integer variables, instantiated by
@@ -217,7 +218,16 @@ type Obligation struct {
 	NHyps  int
 	Fn     string
 	Pos    string
+	// explicit hypothesis sets (path replay): replace hyps[:NHyps] / qhyps[:NQ]
+	HypsX  []*Term
+	QHypsX []*QHyp
 	// filled by the solver stage
+	FocusFiles []string
+	Wall       float64 // wall time of all solver stages
+	anteFile   string
+	lazyFull   func()
+	lazyAnte   func()
+	lazySmall  func()
 	Result    string
 	Backend   string
 	Secs      float64
@@ -385,8 +395,14 @@ func (c *VCtx) mergeStates(edges []*State) *State {
 		return live[0].clone()
 	}
 	out := live[len(live)-1].clone()
+	var pcs []*Term
+	for _, l := range live {
+		pcs = append(pcs, l.pc)
+	}
+	rel := relConds(pcs)
 	for i := len(live) - 2; i >= 0; i-- {
 		e := live[i]
+		sel := rel[i]
 		keys := map[string]bool{}
 		for k := range e.mems {
 			keys[k] = true
@@ -404,7 +420,7 @@ func (c *VCtx) mergeStates(edges []*State) *State {
 			sorts[k] = ft.sort
 		}
 		nm := map[string]*Mem{}
-		for k := range keys {
+		for _, k := range sortedKeys(keys) {
 			var srt *Sort
 			if m, ok := e.mems[k]; ok {
 				srt = m.sort
@@ -415,23 +431,24 @@ func (c *VCtx) mergeStates(edges []*State) *State {
 			}
 			a := c.family(e, k, srt)
 			b := c.family(out, k, srt)
-			nm[k] = MemIte(e.pc, a, b)
+			nm[k] = MemIte(sel, a, b)
 		}
 		out.mems = nm
 		if !sameSel(e, out) {
 			// families not materialised on either side keep, per path, the base that path saw
-			out.baseSel = &baseSel{cond: e.pc, a: e.sel(), b: out.sel()}
+			out.baseSel = &baseSel{cond: sel, a: e.sel(), b: out.sel()}
 			out.famTags = map[string]famTag{}
 		}
-		out.allocTop = Ite(e.pc, e.allocTop, out.allocTop)
-		out.refTop = Ite(e.pc, e.refTop, out.refTop)
+		out.allocTop = Ite(sel, e.allocTop, out.allocTop)
+		out.refTop = Ite(sel, e.refTop, out.refTop)
 		g := map[string]*Term{}
 		for k, v := range out.ghost {
 			g[k] = v
 		}
-		for k, v := range e.ghost {
+		for _, k := range sortedKeys(e.ghost) {
+			v := e.ghost[k]
 			if w, ok := out.ghost[k]; ok {
-				g[k] = Ite(e.pc, v, w)
+				g[k] = Ite(sel, v, w)
 			} else {
 				g[k] = v
 			}
